@@ -8,6 +8,7 @@ out = "/tmp/seed-%s%s/out" % (pid, variant)
 hint = {
  "a": "Prefer a change that needs a particular multi-step sequence of operations or an unusual input/configuration to manifest.",
  "b": "Prefer a change that needs a particular interleaving, a fault/crash at a particular point, or two cooperating edits at different sites that each look harmless alone.",
+ "c": "Prefer a change in one of the *secondary* files listed below (a call site, wrapper, middleware, interceptor, adapter, helper or convenience entry point of the mechanism) rather than in its core data structure, and one that needs an unusual but legal input, configuration or sequence to manifest.",
 }[variant]
 extra = ""
 if pid == "C20":
